@@ -9,7 +9,7 @@ from vlib import build, sched, treegen, packcheck, sqfsck
 from vlib.treegen import E, content_pattern
 
 B = 4096
-BLK = {"r1": content_pattern("r1", B), "r2": content_pattern("r2", B), "r3": content_pattern("r3", B), "A": b"A" * B, "Bb": b"B" * B}
+BLK = {"r1": content_pattern("r1", B), "r2": content_pattern("r2", B), "r3": content_pattern("r3", B), "A": b"A" * B, "Bb": b"B" * B, "Z": bytes(B)}
 TAIL = {"t1": content_pattern("t1", 1500), "t2": content_pattern("t2", 1500), "t3": content_pattern("t3", 1500), "t4": content_pattern("t4", 1500),
         "tp": content_pattern("t1", 700), "t5": content_pattern("t5", 1500), "t6": content_pattern("t6", 1500), "t7": content_pattern("t7", 1500)}
 VARIANTS = {}
@@ -125,6 +125,12 @@ def main():
         base7 = [("t1",), ("t2",), ("t3",), ("t4",), ("t5",), ("t6",), ("t7",)]
         look = [("t1",), ("t2",), ("t3",), ("t4",), ("t5",), ("t6",)]
         fams.append(("ondisk-lookups", [tuple(base7) + seq for n in ((1, 2) if cr.quick else (1, 2, 3)) for seq in itertools.product(look, repeat=n)]))
+        # holes inside block runs: all-zero blocks are never written, yet they are part of the run that is compared with earlier runs (leading,
+        # embedded and trailing holes; a file that starts with a hole right after a file with data)
+        SH = shapes(["r1", "Z"], ["t1"], 3)         # 29 shapes
+        SH1 = shapes(["r1", "r2", "Z"], [], 2)      # 12 shapes
+        fams.append(("holes-pairs", list(itertools.product(SH, repeat=2))))
+        fams.append(("holes-triples", list(itertools.product(SH1, repeat=3))))
         if not cr.quick:
             S0 = shapes(["r1", "A"], ["t1", "t2"], 1)   # 8 shapes
             fams.append(("quads", list(itertools.product(S0, repeat=4))))
@@ -133,6 +139,8 @@ def main():
                 for k in bits:
                     for ci, cfg in enumerate(cfgs):
                         if fname == "ondisk-lookups" and (k not in (0, 32) or cfg.get("sort")):
+                            continue
+                        if fname.startswith("holes") and (k not in (0, 32) or ci > 1):
                             continue
                         if fname in ("triples", "quads") and ci > 1 and (k != 0 or cfg.get("sort")):
                             continue
